@@ -278,13 +278,40 @@ MAX_VIOL_PER_SHARD = int(os.environ.get("VP_MAX_VIOL_PER_SHARD", "3"))
 SHRINK_BUDGET_S = float(os.environ.get("VP_SHRINK_BUDGET_S", "8"))
 
 
-def hyp_search(acc: Acc, strategy, check, *, seed, max_examples, known, rounds=3, shrink=True):
+def run_with_history(case, check):
+    """Cases of the form {"$history": [ops], "$case": case}: the operations run
+    first (their outcome is ignored), then the case is checked - the result must
+    not depend on what the process did before."""
+    if isinstance(case, dict) and "$history" in case:
+        from vp.props import c13
+
+        for op in case["$history"]:
+            c13.run_op(op)
+        out = check(case["$case"])
+        if case["$history"]:
+            out.classes = list(out.classes) + ["after-history"]
+        return out
+    return check(case)
+
+
+def hyp_search(acc: Acc, strategy, check, *, seed, max_examples, known, rounds=3, shrink=True, history=None):
     """Drive `check` (case -> Out) with Hypothesis.  Violations whose key is a
     known finding are tallied and the case passes; the first unlisted key fails
     the example, is shrunk and recorded; the search then restarts with that key
     excluded so that several root causes can be enumerated in one run."""
     import hypothesis
     from hypothesis import HealthCheck, Phase, Verbosity, given, settings
+
+    if history is not None:
+        # `history(case)` -> strategy of operation lists that run before the case
+        from hypothesis import strategies as _st
+
+        inner_check = check
+        strategy = strategy.flatmap(lambda c: _st.one_of(
+            _st.just(c), _st.just(c), history(c).map(lambda ops, c=c: {"$history": ops, "$case": c})))
+
+        def check(case):  # noqa: F811
+            return run_with_history(case, inner_check)
 
     found = set()
     for rnd in range(rounds):
